@@ -28,6 +28,7 @@ import (
 
 	"github.com/cossacklabs/acra/decryptor/base"
 	base_mysql "github.com/cossacklabs/acra/decryptor/mysql/base"
+	"github.com/cossacklabs/acra/utils"
 )
 
 // MySQL protocol capability flags https://dev.mysql.com/doc/internals/en/capability-flags.html
@@ -222,7 +223,7 @@ func (packet *Packet) SetParameters(values []base.BoundValue) (err error) {
 			}
 			intValue, err := strconv.ParseInt(string(data), 10, 64)
 			if err != nil {
-				return err
+				return utils.ErrorWithoutValue(err)
 			}
 
 			paramType[1] = unsignedBinaryValue
